@@ -159,6 +159,29 @@ def mainStage (cfg : ExecCfg) (method : Bytes) (hasRetry : Bool) (mainHost : Opt
     | (st2, none) => (st2, .unreachable)
   | _ => (st, .done (.userError 404 b!"No destination found for request target"))
 
+/-- the copy request `createOutgoingRequests` hands on (proxy.go:530-539): when it cannot be built
+    the error is only logged and the request goes on without a copy -/
+def builtCopy (cfg : ExecCfg) (copy : Option (Rule × Bytes)) : Option (Rule × Bytes) :=
+  match copy with
+  | some x => if (cfg.build x.1.internal).isSome then none else some x
+  | none => none
+
+/-- body buffering and the two performs (proxy.go:196-269) on the requests that were built: the
+    copy first (its failure is only logged), then the main request -/
+def performBoth (cfg : ExecCfg) (method : Bytes) (hasRetry : Bool)
+    (main : Option (Rule × Bytes × Option Nat)) (copy : Option (Rule × Bytes))
+    (st : ExecState) : ExecState × Stage :=
+  let mainHost := main.map fun x => destHost x.2.1
+  let copyHost := copy.map fun x => destHost x.2
+  -- body buffering (proxy.go:200-216): two targets, a retryable method, or a retry_rule (the
+  -- fallback must be able to send the body again)
+  if (main.isSome && copy.isSome) || decide (method ≠ cfg.excluded) || hasRetry then
+    let src := BodySrc.buffered st.remaining
+    let st0 : ExecState := { st with remaining := [] }
+    mainStage cfg method hasRetry mainHost (main.bind (·.2.2)) src (copyStage cfg method hasRetry copyHost src st0)
+  else
+    mainStage cfg method hasRetry mainHost (main.bind (·.2.2)) .client (copyStage cfg method hasRetry copyHost .client st)
+
 /-- one pass of `routeRequest` (proxy.go:188-240): build both requests, buffer the body, perform
     the copy (its failure is only logged), perform the main request.  `hasRetry` = the selected
     rule has a retry_rule (it switches connection retries off). -/
@@ -169,21 +192,14 @@ def routeOnce (cfg : ExecCfg) (method : Bytes) (hasRetry : Bool)
   let mainHost := main.map fun x => destHost x.2.1
   let copyHost := copy.map fun x => destHost x.2
   if mainHost = some none ∨ copyHost = some none then (st, .done .plainError) else
-  -- createOutgoingRequests: main request first, then copy request; either may fail
+  -- createOutgoingRequests: main request first; its build error ends the pass
   match (main.bind fun x => cfg.build x.1.internal) with
   | some e => (st, .done (buildErrRes e))
   | none =>
-  match (copy.bind fun x => cfg.build x.1.internal) with
-  | some e => (st, .done (buildErrRes e))
-  | none =>
-    -- body buffering (proxy.go:200-216): two targets, a retryable method, or a retry_rule (the
-    -- fallback must be able to send the body again)
-    if (main.isSome && copy.isSome) || decide (method ≠ cfg.excluded) || hasRetry then
-      let src := BodySrc.buffered st.remaining
-      let st0 : ExecState := { st with remaining := [] }
-      mainStage cfg method hasRetry mainHost (main.bind (·.2.2)) src (copyStage cfg method hasRetry copyHost src st0)
-    else
-      mainStage cfg method hasRetry mainHost (main.bind (·.2.2)) .client (copyStage cfg method hasRetry copyHost .client st)
+  -- then the copy request: an error it returns is only logged and the copy dropped (`builtCopy`);
+  -- the `secrets[0]` panic of ensureInternalHeaders is not an error value and still ends the pass
+  if (copy.bind fun x => cfg.build x.1.internal) = some .panicNoSecrets then (st, .done .panicked) else
+  performBoth cfg method hasRetry main (builtCopy cfg copy) st
 
 /-- re-matching against the retry rule alone (proxy.go:242-249) -/
 def fallbackMatch (q : Query) (method : Bytes) (rr : Rule) : Option (Rule × Bytes × Option Nat) :=
